@@ -24,6 +24,11 @@ def main():
     from pyvc.native import Native, unshow
     from pyvc import repo
     nat = Native(rp["modules"], repo.REPO)
+    if "__history__" in rp["inputs"]:
+        st, d = nat.run_history(rp["inputs"])
+        print(f"history: {json.dumps(rp['inputs'], default=str)[:1500]}")
+        print(f"native result on the real code: {st} {d}")
+        sys.exit(1 if st == "fail" else 0)
     kwargs = {k: unshow(v) for k, v in rp["inputs"].items()}
     if rp.get("is_lemma"):
         st, d = nat.run_lemma(rp["function"], kwargs)
